@@ -175,6 +175,33 @@ class ListVal(object):
         return 'ListVal(%r)' % (self.items,)
 
 
+class Segment(object):
+    """An unknown number of consecutive elements of an HList: a symbolic sequence (SeqVal)."""
+
+    def __init__(self, seq):
+        self.seq = seq
+
+    def __repr__(self):
+        return 'Segment(%s)' % (self.seq.term,)
+
+
+class HList(object):
+    """A Python list whose known elements keep their object identity (so a store to an element is
+    seen through every reference) and which may contain symbolic segments of unknown length
+    between them.  Only positional access that provably lands on a known element, slicing at
+    known elements, append/insert and iteration over a single segment are modelled; everything
+    else is Unsupported."""
+
+    def __init__(self, parts=None):
+        self.parts = list(parts) if parts is not None else []
+
+    def segments(self):
+        return [x for x in self.parts if isinstance(x, Segment)]
+
+    def __repr__(self):
+        return 'HList(%r)' % (self.parts,)
+
+
 class NamedTupleClass(object):
     def __init__(self, name, fields):
         self.name = name
